@@ -1,0 +1,25 @@
+//go:build verif
+
+package event
+
+// Scheduler yield points for the verification harness (build tag "verif" only).
+//
+// VerifYieldFn, when non-nil, is called at five points inside Feed.Send and
+// Feed.remove so that a harness can perturb goroutine schedules exactly where
+// the feed's internal state is exposed to interleaving:
+//
+//	1: Send, after taking sendLock
+//	2: Send, after merging the inbox into sendCases
+//	3: Send, before reflect.Select
+//	4: remove, between the inbox miss and the select
+//	5: remove, after deleting from sendCases while holding sendLock
+//
+// It must be set before the feed is used concurrently and not changed while
+// goroutines are inside Send or remove.
+var VerifYieldFn func(point int)
+
+func verifYield(point int) {
+	if fn := VerifYieldFn; fn != nil {
+		fn(point)
+	}
+}
